@@ -4108,10 +4108,10 @@ impl Machine {
             Ok(num_functors)
         }
 
-        if prec.is_var() {
-            let spec = self.deref_register(2);
-            let orig_op = self.deref_register(3);
+        let spec = self.deref_register(2);
+        let orig_op = self.deref_register(3);
 
+        if prec.is_var() || spec.is_var() || orig_op.is_var() {
             let spec_num = if spec.get_tag() == HeapCellValueTag::Atom {
                 OpDeclSpec::try_from(cell_as_atom!(spec)).ok()
             } else {
